@@ -34,7 +34,7 @@ def _state(module):
     """(trainable parameters, everything else the state dict holds) of the layer as raw bytes.  Non-persistent
     buffers are volatile by design (scratch space, last-batch diagnostics) and are not part of the life-cycle."""
     params = {k for k, _ in module.named_parameters(recurse=True)}
-    sd = module.state_dict()
+    sd = {k: v for k, v in module.state_dict().items() if hasattr(v, "dtype") and hasattr(v, "shape")}   # tensors only
     return ({k: core.tbytes(v) for k, v in sd.items() if k in params},
             {k: core.tbytes(v) for k, v in sd.items() if k not in params})
 
@@ -105,6 +105,7 @@ class RefActNorm:
             w.ratio(float((m / tol).max()), 1.0, 'actnorm init mean')
             vb, vu = yy.var(0, ddof=0), yy.var(0, ddof=1)
             dv = np.minimum(np.abs(vb - 1.0), np.abs(vu - 1.0))
+            tol = tol + 1e-5 / np.maximum(sx, 1e-300)      # room for a stabilising epsilon of up to ~5e-6 next to the std
             if (dv > 2 * tol).any():
                 i = int((dv / tol).argmax())
                 raise Violation("actnorm_init_batch_not_normalised",
@@ -432,12 +433,12 @@ class C14World(World):
         self.await_next_train = False   # an ActNorm initialised and has not seen another training forward yet
         self.restarts = 0
         self.old = None            # stale checkpoint: (bytes name, [ref snapshots], [expected bytes])
-        self._attach()
+        self._attach(fresh_model=True)
 
     def _is_flow(self):
         return self.cfg["nest"] in ("maf", "realnvp")
 
-    def _attach(self):
+    def _attach(self, fresh_model=False):
         from nflows.transforms.normalization import ActNorm, BatchNorm
 
         self.monitored, self.expected = [], []
@@ -445,10 +446,15 @@ class C14World(World):
         for mod in self.root.modules():
             if type(mod) is ActNorm:
                 ref = RefActNorm(mod)
+                if fresh_model:
+                    ref.initialized = False      # "initialises on its first training-mode forward pass": never born initialised
             elif type(mod) is BatchNorm:
                 main = self.cfg["layer"] == "batchnorm" and self.cfg["nest"] not in ("maf", "realnvp") and \
                     (self.cfg["nest"] != "two" or mod is self._main_layer())
-                ref = RefBatchNorm(mod, self.cfg["momentum"] if main else 0.1, self.cfg["eps"] if main else 1e-5)
+                # the layer this run constructed itself is held to the constructor arguments of the configuration; a
+                # layer some flow built internally to the arguments that flow chose
+                ref = RefBatchNorm(mod, self.cfg["momentum"] if main else float(getattr(mod, "momentum", 0.1)),
+                                   self.cfg["eps"] if main else float(getattr(mod, "eps", 1e-5)))
             else:
                 continue
             idx = len(self.monitored)
@@ -495,8 +501,17 @@ class C14World(World):
             # outside the property's quantifier (2-D / image batches): a call the layer chose to accept is not judged;
             # whatever it did to the state is adopted
             self.probes["call_outside_quantifier_not_judged"] += 1
-            ref.adopt(layer)
-            self.expected[idx] = _state(layer)
+            before, after = self.expected[idx], _state(layer)
+            train_fwd = direction == "forward" and training
+            if ref.kind == "actnorm" and ref.initialized and (after[0] != before[0] or not bool(getattr(layer, "initialized", True))):
+                raise Violation("state_written_when_forbidden", "a %s call on a rank-%s input changed the parameters or the "
+                                "flag of an already initialised ActNorm" % (direction, getattr(x, "dim", lambda: "?")()))
+            if not train_fwd and after != before:
+                raise Violation("state_written_when_forbidden", "a %s call outside training-mode forward changed the state" % direction)
+            if ref.kind == "batchnorm" and after[0] != before[0]:
+                raise Violation("state_written_when_forbidden", "a call changed BatchNorm's trainable parameters")
+            ref.adopt(layer)       # what such a call does beyond that (e.g. initialise an uninitialised layer) is adopted
+            self.expected[idx] = after
             return
         before = self.expected[idx]
         after = _state(layer)
@@ -671,7 +686,9 @@ class C14World(World):
             raise
         except Exception as e:   # noqa: BLE001
             log.add("raised", type(e).__name__)
-            if judged and not self._refusal_expected(direction):
+            uninit_eval = any(r.kind == "actnorm" and not r.initialized and not self.lmode[i]
+                              for i, (_, r) in enumerate(self.monitored))
+            if judged and not self._refusal_expected(direction) and not uninit_eval:
                 raise Violation("normalisation_call_failed", "%s raised %s: %s" % (direction, type(e).__name__, str(e)[:200]))
             return True
         if self._is_flow() and direction == "inverse":
